@@ -32,6 +32,8 @@ INLINE = {
     'reverse(0x010203)': push_data(b'\x03\x02\x01'),
     'hash160(0x00)': push_data(hash160(b'\x00')),
     'int(0x0102)': push_num(0x0201),
+    'sha256([OP_1 OP_2])': push_data(sha256(b'\x51\x52')),
+    'hash160([0x1234 OP_DUP])': push_data(hash160(b'\x02\x12\x34\x76')),
     'int(0x010203040506070809)': None,
     'int(0xe539d2015a2f0cbde363246e1498fa0c1e05cb74b602043561da1ac0682ab605)': None,
 }
@@ -40,12 +42,17 @@ INLINE = {
 def compile_list(toks):
     """the operations a token list denotes, or None if it is not in the grammar: like the arguments of btcc, a bracketed sub-script may be
     spread over several tokens, and a token may go on after a closing bracket (C07's join_args)"""
-    from checks.c07 import join_args, bracket_balance
     toks = [t for t in toks if t != '']
-    if bracket_balance(' '.join(toks)) != 0:
+    text = ' '.join(toks)
+    depth = 0
+    for ch in text:
+        depth += (ch == '[') - (ch == ']')
+        if depth < 0:
+            return None          # a bracket is closed that was never opened
+    if depth != 0:
         return None
     try:
-        joined = join_args(toks)
+        joined = asm.split_body(text)      # the arguments are read like the body of a sub-script: blanks and tabs separate, brackets group
     except asm.AsmError:
         return None
     comp = [compile_token(t) for t in joined]
@@ -90,7 +97,7 @@ def gen_tokens(rng, sv, state_depth):
             toks.append(tok_of_op(rng, o))
     if rng.random() < 0.08:
         # bracketed sub-scripts the way a command line delivers them: spread over several tokens, glued to what follows
-        toks[rng.randrange(len(toks) + 1):0] = rng.choice([['[OP_1', 'OP_2]'], ['[OP_1][OP_2]'], ['[OP_1]5'], ['[OP_1', '[OP_2', 'OP_3]]', 'OP_SIZE'], ['[', 'OP_DUP', ']'], ['[0x1234', 'OP_ADD][OP_1]'], ['[]']])
+        toks[rng.randrange(len(toks) + 1):0] = rng.choice([['[OP_1', 'OP_2]'], ['[OP_1][OP_2]'], ['[OP_1]5'], ['[OP_1', '[OP_2', 'OP_3]]', 'OP_SIZE'], ['[', 'OP_DUP', ']'], ['[0x1234', 'OP_ADD][OP_1]'], ['[]'], ['sha256([OP_1', 'OP_2])'], ['hash160([0x1234', 'OP_DUP])', 'OP_SIZE'], ['OP_1\tOP_2'], ['OP_1\t[OP_2\tOP_3]']])
     if sv == TAPSCRIPT:
         toks = [t for t in toks if not (len(compile_token(t) or b'') == 1 and is_op_success(compile_token(t)[0]))] or ['OP_NOP']
     return toks
@@ -403,7 +410,7 @@ def worker(job):
             if 'weight' not in c and not c.get('failing_step') and rng.random() < 0.3:
                 c['toks0'] = rng.choice([['0000000000', 'OP_1ADD'], ['OP_0', 'OP_VERIFY'], ['ffffffff7f', 'OP_NEGATE'], ['0100', 'OP_NOT'], ['OP_1', 'OP_DROP'], ['OP_DEPTH'], ['OP_BOGUS'], gen_tokens(rng, c['sv'], 0)])
             if 'weight' not in c and not c.get('failing_step') and rng.random() < 0.03 and not any('[' in t or ']' in t for t in c['toks']):     # (inside a sub-script a word outside the grammar is text to push: not judged)
-                c['toks'].insert(rng.randrange(len(c['toks']) + 1), rng.choice(['OP_BOGUS', 'zz', 'OP_', '12x', '0x123', '-0', '1e3', '[OP_1', 'OP_1]', '[[OP_1]'] + list(INLINE)))
+                c['toks'].insert(rng.randrange(len(c['toks']) + 1), rng.choice(['OP_BOGUS', 'zz', 'OP_', '12x', '0x123', '-0', '1e3', '[OP_1', 'OP_1]', '[[OP_1]', '] [', 'OP_1] [OP_2'] + [k for k in INLINE if ' ' not in k]))
             c['id'] = 'x%d.%d' % (idx, i)
             cmds = ['N ' + c['id'], 'SV %d' % c['sv'], 'FL %d' % c['flags'], 'SC %s' % hexs(c['script'])]
             if c['stack']:
